@@ -75,6 +75,7 @@ def main():
         xh_cross.run(chk, ["lcs_prestate"], PROP)
         chk.assumptions.append("CrossHair (E1) conditions are a cross-check by a second engine on List[int] inputs with symbolic "
                                "lengths <= 3; only 'Confirmed over all paths' counts as agreement; its timeouts do not affect the verdict")
+    fam_nbmerge.f16_witness(chk, known)
     return chk.finish()
 
 
